@@ -1,10 +1,58 @@
 (* Props/C01.v -- property theorems for C01 (stripping removes exactly the escape
    sequences and nothing else).  Only statements, each closed by [exact]. *)
 From Coq Require Import NArith List Bool.
-From AV Require Import Generated.Table Spec.Vt Spec.Strip Model.Base Model.Parser Model.Strip Proofs.TableFacts.
+From AV Require Import Generated.Table Spec.Utf8 Spec.Vt Spec.Strip Model.Base Model.Parser Model.Strip
+  Proofs.TableFacts Proofs.StripMachine Proofs.StripSim Proofs.StripStr Proofs.StripPieces.
 Import ListNotations.
 Local Open Scope N_scope.
 
+(* the byte API, for every byte string (no UTF-8 hypothesis): never panics and the
+   concatenated pieces are exactly what Spec/Strip keeps *)
+Theorem c01_strip_bytes_is_spec :
+  forall input, bytes_ok input -> strip_bytes_model input = Some (spec_strip input).
+Proof. exact strip_bytes_is_spec. Qed.
+
+(* the text API, for every valid UTF-8 string *)
+Theorem c01_strip_str_is_spec :
+  forall input, bytes_ok input -> valid_utf8 input = true ->
+  strip_str_model input = Some (spec_strip input).
+Proof. exact strip_str_is_spec. Qed.
+
+(* the output never contains ESC, DEL or a non-whitespace C0 control, whatever the
+   input (valid UTF-8 or not) *)
+Theorem c01_strip_no_controls :
+  forall input, bytes_ok input -> Forall (fun b => clean_byte b = true) (spec_strip input).
+Proof. exact strip_no_controls. Qed.
+
+(* the pieces are non-empty, in-order, non-overlapping substrings of the input at
+   the offsets they report *)
+Theorem c01_strip_bytes_pieces :
+  forall input ps, strip_bytes_pieces input = Some ps -> pieces_in 0 input ps.
+Proof. exact strip_bytes_pieces_wf. Qed.
+
+Theorem c01_strip_str_pieces :
+  forall input ps, strip_str_pieces input = Some ps -> pieces_in 0 input ps.
+Proof. exact strip_str_pieces_wf. Qed.
+
+(* finite facts used above, each by complete enumeration of states x 256 bytes:
+   the generated table is the by-range VT model ... *)
 Theorem c01_table_is_williams :
   forall s b, b < 256 -> trans_matches s b = true.
 Proof. exact table_is_williams. Qed.
+
+(* ... one scanner step from an idle decoder agrees with one specification step ... *)
+Theorem c01_plain_step_matches :
+  forall st b, b < 256 -> plain_matches st b = true.
+Proof. exact plain_matches_ok. Qed.
+
+(* ... and utf8parse continues a character exactly as Table 3-7 says *)
+Theorem c01_utf8_cont_matches :
+  forall s8 b, b < 256 -> cont_matches s8 b = true.
+Proof. exact cont_matches_ok. Qed.
+
+(* non-vacuity: a concrete input with a control inside a sequence, a truncated lead
+   byte followed by ESC, and a multi-byte character *)
+Theorem c01_example :
+  strip_bytes_model [27; 91; 10; 51; 50; 109; 88; 226; 27; 91; 109; 195; 169]
+  = Some [10; 88; 226; 195; 169].
+Proof. vm_compute. reflexivity. Qed.
